@@ -31,7 +31,7 @@ func init() {
 		Word32: true,
 		Level:  "exploration",
 		Rule: "E1 bounded-exhaustive enumeration, per width n in {1,2,4,8}: (split) every string of length ≤2 over all 256 byte values and of length ≤L over {00,01,7f,80,ff,a5,5a,'a'}: FromStr length and every word, Get at every index, ToStr∘FromStr; " +
-			"(pack) ToStr on every list of in-range words up to a width-dependent length (every partial-last-byte shape); (diff) FirstDiff on every ordered pair of strings of length ≤D over 6 bytes × every from in [0, words+2] × every end in [-1, words+2]; (diff, far windows) the same pairs with from and/or end far beyond both strings: 2^31, 2^32, 2^60, 2^61, 2^62, 3·2^61 (each ±1), MaxInt-1, MaxInt - every from in [0, words+2] ∪ far × every far end, and every far from × every end in [-1, words+2]; (diff, long) FirstDiff on every ordered pair of 48 strings of 8..19 bytes (4 stem variants × 3 tails) and on single-byte flips of bases of EVERY length 1..40 at every byte position × every from × 7 ends; (big) strings of 2^8, 2^12, 2^16 (±1) bytes: FromStr/ToStr/Get and FirstDiff against copies with one flipped byte; (lists) FromStrs/ToStrs element-wise (and the FromStrs elements once more after appending a byte to each: results must not alias each other) on every list of ≤3 strings over 4 strings. " +
+			"(pack) ToStr on every list of in-range words up to a width-dependent length (every partial-last-byte shape); (diff) FirstDiff on every ordered pair of strings of length ≤D over 6 bytes and of length ≤3 over {c3,a9,a8,'a'} and {e6,97,a5,a6} (well-formed 2- and 3-byte UTF-8 sequences differing in a continuation byte) × every from in [0, words+2] × every end in [-1, words+2]; (diff, far windows) the same pairs with from and/or end far beyond both strings: 2^31, 2^32, 2^60, 2^61, 2^62, 3·2^61 (each ±1), MaxInt-1, MaxInt - every from in [0, words+2] ∪ far × every far end, and every far from × every end in [-1, words+2]; (diff, long) FirstDiff on every ordered pair of 48 strings of 8..19 bytes (4 stem variants × 3 tails) and on single-byte flips of bases of EVERY length 1..40 at every byte position × every from × 7 ends; (big) strings of 2^8, 2^12, 2^16 (±1) bytes: FromStr/ToStr/Get and FirstDiff against copies with one flipped byte; (lists) FromStrs/ToStrs element-wise (and the FromStrs elements once more after appending a byte to each: results must not alias each other) on every list of ≤3 strings over 4 strings, and on generated lists of every threshold size (round numbers ±1) from 1000 to 70000 strings. " +
 			"Oracle: the string's '0'/'1' rendering cut into n-bit groups. A case is one call; non-trivial when the string/list is non-empty.",
 		Assumptions: []string{"from < 0 and end < -1 are outside the statement and not called; long strings over the full byte alphabet are not enumerated"},
 		Run:         c08Run,
@@ -281,6 +281,46 @@ func c08Run(c *mc.Ctx) {
 	})
 	c.ForceSample(map[string]interface{}{"fn": "FirstDiff", "width": 4, "a": "a5ff", "b": "a580", "from": 0, "end": -1, "expected": refFirstDiff("\xa5\xff", "\xa5\x80", 4, 0, -1)})
 
+	// (diff, UTF-8) WELL-FORMED multi-byte sequences: every ordered pair of strings of ≤3 bytes over
+	// {c3,a9,a8,'a'} ("é" = c3 a9, "è" = c3 a8) and over {e6,97,a5,a6} ("日" = e6 97 a5, "旦" = e6 97 a6), every
+	// window: code that walks a string by rune instead of by byte steps over the continuation bytes of
+	// exactly such sequences
+	for fi, al := range [][]byte{{0xc3, 0xa9, 0xa8, 'a'}, {0xe6, 0x97, 0xa5, 0xa6}} {
+		us := gen.Strings(al, 3)
+		for _, n := range c08Widths {
+			for _, a := range us {
+				wa := 8 * len(a) / n
+				c.Expect(int64(len(us)) * int64(wa+3) * int64(wa+4))
+			}
+		}
+		c.Par(len(us)*4, func(k int) {
+			if c.TooMany() {
+				return
+			}
+			n := c08Widths[k%4]
+			a := us[k/4]
+			wa := 8 * len(a) / n
+			var evals, nontriv int64
+			for bi, b := range us {
+				for from := 0; from <= wa+2; from++ {
+					for end := -1; end <= wa+2; end++ {
+						want := refFirstDiff(a, b, n, from, end)
+						got, p := bwFirstDiff(n, a, b, from, end)
+						if p != "" || got != want {
+							c.Fail(7<<50|int64(fi)<<48|int64(k)<<32|int64(bi)<<16|int64(from)<<8|int64(end+1), "FirstDiff", "FirstDiff/utf8", c08Case{Width: n, A: gen.Bytes(a), B: gen.Bytes(b), From: from, End: end}, p+fmt.Sprint(got), fmt.Sprint(want))
+						}
+						evals++
+						if len(a) > 0 && len(b) > 0 {
+							nontriv++
+						}
+					}
+				}
+			}
+			c.Count(evals, nontriv)
+			c.Add("firstdiff_utf8_cases", evals)
+		})
+	}
+
 	// (diff, far windows) from and/or end far beyond both strings, up to the largest int: "no limit"
 	// spelled as MaxInt or 1<<62, and the values at which end*width or from*width leaves the int range
 	far := c08FarInts()
@@ -475,6 +515,30 @@ func c08Run(c *mc.Ctx) {
 			c.Add("big_string_cases", evals)
 		})
 	}
+	// (lists, long) FromStrs / ToStrs on generated lists of every threshold size (round numbers ±1) from
+	// 1000 to 70000 strings: an element-wise conversion may be split into chunks above some length
+	{
+		sizes := gen.ThresholdSizes(1000, 70000)
+		type job struct {
+			n, w int
+			kind string
+		}
+		var jobs []job
+		for i := len(sizes) - 1; i >= 0; i-- {
+			for _, w := range c08Widths {
+				jobs = append(jobs, job{sizes[i], w, "FromStrsLong"}, job{sizes[i], w, "ToStrsLong"})
+			}
+		}
+		c.Expect(int64(len(jobs)))
+		c.Par(len(jobs), func(ji int) {
+			j := jobs[ji]
+			if g, w := c08LongList(j.kind, j.w, j.n); g != w {
+				c.Fail(8<<50|int64(ji), j.kind, "lists/long", c08Case{Width: j.w, Big: j.n}, g, w)
+			}
+			c.Count(1, 1)
+			c.Add("long_list_calls", 1)
+		})
+	}
 	// (lists)
 	la := []string{"", "\xa5", "\x01\x80", "a\xff\x00"}
 	var lists [][]string
@@ -528,6 +592,53 @@ func c08Run(c *mc.Ctx) {
 	}
 }
 
+// c08GenList: n strings of 0..4 bytes whose content depends on their position.
+func c08GenList(n int) []string {
+	ks := make([]string, n)
+	for i := range ks {
+		b := []byte{byte(i), byte(i >> 8), byte(i>>16) | 0x80, 0xa5}
+		ks[i] = string(b[:i%5%len(b)+i%5/4])
+	}
+	return ks
+}
+
+// c08LongList judges FromStrs / ToStrs on a generated list of n strings, element by element.
+func c08LongList(kind string, width, n int) (got, want string) {
+	defer func() {
+		if e := recover(); e != nil {
+			got = fmt.Sprint("panic: ", e)
+		}
+	}()
+	want = "every element converted"
+	ks := c08GenList(n)
+	if kind == "FromStrsLong" {
+		r := bitword.BitWord[width].FromStrs(ks)
+		if len(r) != n {
+			return fmt.Sprintf("%d elements", len(r)), want
+		}
+		for i, k := range ks {
+			if string(r[i]) != string(refWords(k, width)) {
+				return fmt.Sprintf("element %d of %d = %v, want %v", i, n, r[i], refWords(k, width)), want
+			}
+		}
+		return want, want
+	}
+	ws := make([][]byte, n)
+	for i, k := range ks {
+		ws[i] = refWords(k, width)
+	}
+	r := bitword.BitWord[width].ToStrs(ws)
+	if len(r) != n {
+		return fmt.Sprintf("%d elements", len(r)), want
+	}
+	for i, k := range ks {
+		if r[i] != k {
+			return fmt.Sprintf("element %d of %d = %x, want %x", i, n, r[i], k), want
+		}
+	}
+	return want, want
+}
+
 // c08AppendPoke appends one byte to every returned element (discarding the
 // result, as a caller building on a returned slice would) and returns the
 // elements as they read afterwards: independent results are unchanged.
@@ -561,6 +672,9 @@ func c08Judge(kind string, cs c08Case) (got, want string) {
 			}
 			return "ok", "ok"
 		}
+	}
+	if kind == "FromStrsLong" || kind == "ToStrsLong" {
+		return c08LongList(kind, cs.Width, cs.Big)
 	}
 	switch kind {
 	case "FromStr":
